@@ -180,7 +180,8 @@ func xf(a, b *proj.SR, x, y float64) (float64, float64, string) {
 var offsets = [][2]float64{{0, 0}, {-2.5, -2.5}, {2.5, -2.5}, {-2.5, 2.5}, {2.5, 2.5}, {0.37, 1.91}, {-1.13, -0.77}, {2.01, 0.05}, {-0.003, 2.4}}
 
 // a geographic reference with a 7-parameter datum: against it the closure of NewTransform takes the two-hop route
-// through defs["WGS84"] whenever the other side's DatumCode is not the literal "WGS84"
+// through defs["WGS84"] unless the other side's DatumCode is WGS84 in any case (strings.EqualFold, fix b165df1; before it the
+// comparison was with the literal "WGS84", so a WKT-parsed reference, whose code is "wgs84", took the two hops)
 const besselDef = "+proj=longlat +ellps=bessel +towgs84=598.1,73.7,418.2,0.202,0.045,-2.455,6.7 +no_defs"
 
 // grid: positions through both references to and from WGS84
@@ -481,6 +482,12 @@ func main() {
 			repo = os.Args[2]
 		}
 		fmt.Print(equalGen(repo))
+	case "routegen":
+		repo := "/repo"
+		if len(os.Args) > 2 {
+			repo = os.Args[2]
+		}
+		fmt.Print(routeGen(repo))
 	case "gen":
 		seed, tier := vproto.SeedTier(os.Args[2:])
 		gen(seed, tier)
